@@ -91,9 +91,9 @@ def buildSet (paths : List Path) : Except Err Trie :=
 def pathsJ (t : Trie) : J := .arr (t.toList.map (fun p => pathToJ (unescP p)))
 
 /-- One operation on set `a` with `b` as the other operand. Returns (new a, result). -/
-def setOp (a b : Trie) (j : J) : Option (Except Err (Trie × J)) :=
+def setOp (a b : Trie) (kind : Option String) (j : J) : Option (Except Err (Trie × J)) :=
   let path := ((j.get? "p").bind pathOfJ).map escP
-  match j.getStr? "k", path with
+  match kind, path with
   | some "add", some p => some ((Trie.add false a p).map fun r => (r.1, .bool r.2))
   | some "add_ii", some p => some ((Trie.add true a p).map fun r => (r.1, .bool r.2))
   | some "remove", some p => some ((Trie.remove a p).map fun r => (r.1, .bool r.2))
@@ -123,7 +123,10 @@ partial def runSetOps (a b : Trie) (ops : List J) (acc : Array J) : Option (Arra
     if j.getStr? "k" == some "swap" then
       runSetOps b a rest (acc.push (.obj [("r", .null), ("paths", pathsJ b), ("bool", .bool b.nonEmpty)]))
     else
-    match setOp a b j with
+    let k := (j.getStr? "k").getD ""
+    -- `self_<op>`: the set itself is the other operand (`a.update(a)`, `a == a`, …)
+    let (kind, other) := if k.startsWith "self_" then ((k.drop 5).toString, a) else (k, b)
+    match setOp a other (some kind) j with
     | none => none
     | some (.error e) => some (acc.push (errJ e))
     | some (.ok (a', r)) =>
@@ -197,6 +200,7 @@ def handle (j : J) : J :=
                   | .error e => J.str e.name)),
             ("strs", .arr (pre.map fun pv => strToJ (pathStr pv.1))),
             ("leaves", valToJ (.dict (Val.queryLeaves v))),
+            ("rebind", valToJ (.dict (Val.rebindInts v))),
             ("flat_t", valToJ flatT),
             ("flat_f", valToJ flatF),
             ("canon_flat_t", exceptJ valToJ (Val.canonicalize dc flatT)),
